@@ -40,6 +40,9 @@ def run(res, programs, tier):
         _r03_4(res, P, P.name)
         _r03_5(res, P, P.name)
         _r03_7(res, P, P.name)
+        from . import c15
+        res.rule("R15.5", "(shared with C15) mirrored sibling kernels of the float add/sub and rounding paths call the same kernels and pass identical decision terms")
+        c15._r15_5(res, P, P.name)
         if "dashu_ratio" in P.units and P.role == "main":
             # R03.6 (= R10.4): the half test of round_fract is conservative
             from . import polarity
